@@ -81,6 +81,7 @@ Fails(e) == CASE e.ev = "reset" -> <<>>
               [] e.ev = "bandiso2" -> Band2Fails(e)
               [] e.ev = "twodecode" -> TwoFails(e)
               [] e.ev = "faileddecode" -> (IF e.err = "error" THEN Tag(e.after = e.before, "C10.state") ELSE <<>>)   \* a decode step that fails leaves the frame it looked at unchanged
+              [] e.ev = "inspectbuilt" -> Tag(e.err = "" /\ e.post = e.pre, "C10.inspect")     \* marshal / validate operations leave a caller-built frame as it is
               [] e.ev = "marshalalias" -> Tag(e.err = "" /\ e.after = e.before, "C10.alias")      \* encoded output does not change the value when overwritten
               [] e.ev = "methodalias" -> Tag(\A k \in 1..Len(e.steps) : e.steps[k].err \in {"", "error"} /\ e.steps[k].intact, "C10.bounds")   \* methods of a frame never write into the caller's payload buffers
               [] e.ev = "subslice" -> SubsliceFails(e)
